@@ -233,6 +233,74 @@ def iter_next(src):
     return "match __f with\n  | 0 => (st, none)\n  | __fuel + 1 => " + em.blk(list(stmts[0][1]))
 
 
+def msg_from_bytes(src):
+    """Message::from_bytes: header checks, then the `while !data.is_empty()` walk over the attributes with the
+    ordering rules and the FINGERPRINT recomputation.  Emits (prologue, loop) bodies; the loop becomes a
+    fuel-recursive function over its mutable locals."""
+    txt = src.get(MSG)
+    imp = impl_body(txt, r"impl\s*<'a>\s*Message<'a>\s*\{")
+    if imp is None:
+        raise XlateError("impl Message not found")
+    body = fn_body(imp, r"pub\s+fn\s+from_bytes\s*\(\s*data\s*:\s*&'a\s*\[u8\]\s*\)\s*->\s*Result<Self,\s*StunParseError>\s*\{")
+    if body is None:
+        raise XlateError("Message::from_bytes not found")
+    exprs = [
+        ("MessageHeader::from_bytes($d)", "(headerFromBytes $d)"),
+        ("header.data_length() as usize", "header.len"),
+        ("MessageHeader::LENGTH", "headerLength"),
+        ("$d.len()", "$d.length"), ("$d.is_empty()", "$d.isEmpty"),
+        ("$d[$k..]", "($d.drop $k)"), ("$d[..$k].to_vec()", "($d.take $k)"),
+        ("MessageIntegrity::TYPE", "tyMI"), ("MessageIntegritySha256::TYPE", "tyMI256"), ("Fingerprint::TYPE", "tyFP"),
+        ("AttributeType::new($x)", "$x"),
+        ("ending_attributes.contains($x)", "(ending_attributes.contains $x)"),
+        ("seen_ending_attributes.contains($x)", "(seen_ending_attributes.contains $x)"),
+        ("RawAttribute::from_bytes($d)", "(rawFromBytes $d)"),
+        ("$x.map_err(|$e| $body)", "(Except.mapError (fun $e => $body) $x)"),
+        ("StunParseError::Truncated { expected: $a, actual: $b }", "(PErr.truncated $a $b)"),
+        ("StunParseError::TooLarge { expected: $a, actual: $b }", "(PErr.tooLarge $a $b)"),
+        ("StunParseError::AttributeAfterFingerprint($t)", "(PErr.afterFingerprint $t)"),
+        ("StunParseError::AttributeAfterIntegrity($t)", "(PErr.afterIntegrity $t)"),
+        ("StunParseError::FingerprintMismatch", "PErr.fpMismatch"),
+        ("Err($x)", "(Except.error $x)"),
+        ("Ok(Message { data: orig_data })", "(Except.ok (Msg.mk orig_data))"),
+        ("attr.get_type()", "attr.ty"), ("attr.padded_len()", "attr.paddedLen"),
+        ("Fingerprint::from_raw(&attr)", "(fpFromRaw attr)"), ("f.fingerprint()", "f"),
+        ("Fingerprint::compute(&$d)", "(Crc.crc32Bytes $d)"),
+        ("&calculated_fingerprint != msg_fingerprint", "(calculated_fingerprint ≠ msg_fingerprint)"),
+    ]
+    pats = [("StunParseError::Truncated { expected: $a, actual: $b }", "PErr.truncated $a $b"),
+            ("StunParseError::TooLarge { expected: $a, actual: $b }", "PErr.tooLarge $a $b")]
+    stmts = [("BigEndian::write_u16(&mut fingerprint_data[2..4], $v)", "setLen fingerprint_data $v")]
+    loop_vars = ["data", "data_offset", "seen_ending_attributes", "seen_ending_len"]
+    call = "msgWalk orig_data ending_attributes __fuel " + " ".join(loop_vars)
+    out = {}
+
+    def mk(locals_):
+        em = Emitter(exprs=exprs, pats=pats, stmts=stmts, state="fingerprint_data", ret="{v}", locals_=locals_)
+        return em
+
+    em = mk(["data"])
+
+    def on_while(stmt, rest):
+        _, cond, wbody = stmt
+        missing = [v for v in loop_vars + ["orig_data", "ending_attributes"] if v not in em.locals]
+        if missing:
+            raise XlateError(f"from_bytes: loop variables not declared before the loop: {missing}")
+        eb = mk(list(em.locals))
+        eb.on_end = eb.on_continue = call
+        body_l = eb.blk(list(wbody))
+        ea = mk(list(em.locals))
+        after_l = ea.blk(list(rest))
+        out["loop"] = ("match __f with\n  | 0 => Except.error (PErr.fault Fault.hang)\n  | __fuel + 1 => "
+                       f"(if {eb.tx(cond, 'c')} then {body_l} else {after_l})")
+        return "msgWalk orig_data ending_attributes (orig_data.length + 1) " + " ".join(loop_vars)
+    em.on_while = on_while
+    out["entry"] = em.blk(parse_body(body))
+    if "loop" not in out:
+        raise XlateError("from_bytes: no while loop found")
+    return out
+
+
 def req_mut(src, name):
     txt = src.get(AGENT)
     imp = impl_body(txt, r"impl\s*<'a>\s*StunRequestMut<'a>\s*\{")
@@ -334,6 +402,15 @@ def items(src):
     yield ("FnAgent", "agentPollLoop", "(now : Time) (__ord : List Nat) (s : State) (lowest_wait : Option Time) (timeout cancelled : Option Nat) : State × Out", ap_part("loop"), None)
     yield ("FnAgent", "agentPoll", "(s : State) (now : Time) (ord : List Nat) : State × Out", ap_part("entry"), None)
     yield ("FnMsg", "iterNext", "(data : Bytes) (__f : Nat) (st : IterSt) : IterSt × Option RawAttr", lambda: iter_next(src), None)
+    mfb = {}
+    def mfb_part(k):
+        def f():
+            if not mfb:
+                mfb.update(msg_from_bytes(src))
+            return mfb[k]
+        return f
+    yield ("FnMsg", "msgWalk", "(orig_data : Bytes) (ending_attributes : List Nat) (__f : Nat) (data : Bytes) (data_offset : Nat) (seen_ending_attributes : List Nat) (seen_ending_len : Nat) : Except PErr Msg", mfb_part("loop"), None)
+    yield ("FnMsg", "msgFromBytes", "(data : Bytes) : Except PErr Msg", mfb_part("entry"), None)
     yield ("FnTcp", "tcpTake", "(buf : Bytes) (offset : Nat) : Bytes × Bytes", lambda: tcp_fn(src, "take"), None)
     yield ("FnTcp", "tcpPull", "(buf : Bytes) : Option Bytes × Bytes", lambda: tcp_fn(src, "pull_data"), None)
     yield ("FnTcp", "tcpPush", "(buf data : Bytes) : Bytes", lambda: tcp_fn(src, "push_data"), None)
@@ -341,7 +418,7 @@ def items(src):
 
 HEADERS = {
     "FnAgent": ["import StunVerif.Agent.Agent", "namespace StunVerif.Gen", "open StunVerif StunVerif.Agent", ""],
-    "FnMsg": ["import StunVerif.Msg.IterState", "namespace StunVerif.Gen", "open StunVerif", ""],
+    "FnMsg": ["import StunVerif.Msg.IterState", "import StunVerif.Gen.MsgType", "namespace StunVerif.Gen", "open StunVerif", ""],
     "FnTcp": ["import StunVerif.Bytes", "namespace StunVerif.Gen", "open StunVerif", ""],
 }
 FALLBACK_FILE = os.path.join(os.path.dirname(os.path.abspath(__file__)), "fn_fallback.json")
